@@ -129,7 +129,9 @@ func main() {
 		})
 	}
 	r := new(runner.Runner).Init()
-	if path := os.Getenv("BENCHRUN_DIGEST"); path != "" {
+	if path := os.Getenv("BENCHRUN_DIGEST"); path != "" || os.Getenv("BENCHRUN_INVALIDATE_L1") != "" {
+		// (the diagnosis switch BENCHRUN_INVALIDATE_L1 works through the same tracer; without a
+		// digest path nothing is written)
 		dg := attachDigester(r, path, c.Unified)
 		defer dg.write()
 	}
